@@ -1,6 +1,8 @@
 import RichModel.Lemmas.LayoutSplit
 import RichModel.Lemmas.LayoutText
 import RichModel.Lemmas.LayoutFrames
+import RichModel.Lemmas.LayoutPanel
+import RichModel.Lemmas.LayoutTextNoWrap
 import RichModel.Lemmas.LayoutSmin
 /-!
 The cases of the structural induction behind C01 (`render_fits`) that do not involve a table: text, the framing
@@ -17,6 +19,8 @@ structure CfgOk (cfg : Cfg) : Prop where
   hcw : cfg.cw = cwR
   hfl : cfg.fl.leadingRepeat = false
   hp : cfg.poison = []
+  /-- the panel title is rendered at the width it was aligned to (the code since fix 0e1edf7) -/
+  htc : cfg.titleAtConsoleWidth = false
 
 theorem cwR_space : cwR ' ' = 1 := cwD_space
 theorem cwR_le_two (c : Char) : cwR c ≤ 2 := cwD_le_two c
@@ -105,14 +109,9 @@ theorem good_panel (cfg : Cfg) (ok : CfgOk cfg) (po : PanelOpts) (c : R) : Good 
   have hpos := smin_pos cfg.cw c
   split
   · rename_i s heq
-    rw [ok.hcw] at heq ⊢
-    constructor
-    · apply fits_of_lines_le
-      have := panel_lines_le cfg.env cfg.v po (chOf cfg c o) (w : Int) s heq (by omega)
-        (fun ht => by have := hge.2 ht; omega) (fun k => (chOf_measureAt cfg c o k).2)
-      simpa using this
-    · intro _
-      exact panel_closed cfg.env cfg.v po (chOf cfg c o) (w : Int) s heq
+    have := panelL_fits cfg ok.hcw ok.hp ok.htc po (chOf cfg c o) (w : Int) s heq (by omega)
+      (fun ht => by have := hge.2 ht; omega) (fun k => (chOf_measureAt cfg c o k).2)
+    exact ⟨by simpa using this.1, fun _ => this.2⟩
   · rw [ok.hp]
     exact ⟨fits_nil _ _, fun _ => closed_nil⟩
 
@@ -229,6 +228,16 @@ theorem ruleText_snd (cw : Char → Nat) (env : Env) (v : Frames.Variant) (o : R
   simp only
   split <;> rfl
 
+theorem stripControl_cellLen_le (cw : Char → Nat) (s : List Char) : cellLen cw (stripControl s) ≤ cellLen cw s := by
+  induction s with
+  | nil => simp [stripControl]
+  | cons c t ih =>
+    unfold stripControl at ih ⊢
+    simp only [List.filter_cons]
+    split
+    · simp only [cellLen, List.map_cons, List.sum_cons] at ih ⊢; omega
+    · simp only [cellLen, List.map_cons, List.sum_cons] at ih ⊢; omega
+
 theorem good_rule (cfg : Cfg) (ok : CfgOk cfg) (ro : RuleOpts) : Good cfg (.rule ro) := by
   intro o w hw _ hd
   rw [render]
@@ -237,29 +246,51 @@ theorem good_rule (cfg : Cfg) (ok : CfgOk cfg) (ro : RuleOpts) : Good cfg (.rule
   unfold ruleConsoleL
   simp only
   have he := ruleText_snd cfg.cw cfg.env cfg.v ro (w : Int)
-  constructor
-  · apply text_fits cfg ok.hsp ok.h2 ok.hel ok.hp _ o w hw
-    · unfold effOverflow
-      simp only [Text.new]
-      cases ho : o.overflow with
-      | none => simp
-      | some x =>
-        simp only [Option.orElse_none, Option.getD_some]
-        intro hx
-        exact hov (by rw [ho, hx])
-    · simp only [Text.new, he]
-      split
+  have hE : (if (ro.title.isEmpty && !cfg.ruleNoTitleEnd) = true then ro.endS else (ruleText cfg.cw cfg.env cfg.v ro (w : Int)).2) = ['\n']
+      ∨ (if (ro.title.isEmpty && !cfg.ruleNoTitleEnd) = true then ro.endS else (ruleText cfg.cw cfg.env cfg.v ro (w : Int)).2) = [] := by
+    split
+    · exact hend
+    · rw [he]; split
       · exact Or.inl rfl
       · exact hend
+  constructor
+  · by_cases hig : o.overflow = some RichModel.Overflow.ignore
+    · -- not wrapped, not truncated: the rule text is exactly `w` cells wide
+      have htab := hov.resolve_left (fun h => h hig)
+      apply text_fits_nowrap_line cfg ok.hsp ok.h2 ok.hel ok.hp _ o w hw
+      · right
+        unfold effOverflow
+        simp only [Text.new, hig]
+        rfl
+      · intro c hc
+        simp only [Text.new] at hc
+        unfold stripControl at hc
+        exact htab c (List.mem_filter.mp hc).1
+      · simp only [Text.new]
+        have h1 := stripControl_cellLen_le cfg.cw (ruleText cfg.cw cfg.env cfg.v ro (w : Int)).1
+        have h2 := ruleText_cellLen cfg.cw ok.hsp ok.h2 cfg.env cfg.v ro (w : Int) (by omega)
+        omega
+      · simpa only [Text.new] using hE
+    · apply text_fits cfg ok.hsp ok.h2 ok.hel ok.hp _ o w hw
+      · unfold effOverflow
+        simp only [Text.new]
+        cases ho : o.overflow with
+        | none => simp
+        | some x =>
+          simp only [Option.orElse_none, Option.getD_some]
+          intro hx
+          exact hig (by rw [ho, hx])
+      · simpa only [Text.new] using hE
   · intro hc
     rw [closedR] at hc
+    have hn : ro.endS = ['\n'] := by simpa using hc
     apply text_closed cfg ok.hp _ o w
-    simp only [Text.new, he]
+    simp only [Text.new]
     split
-    · rfl
-    · rename_i hne
-      simp only [hne, Bool.false_or, beq_iff_eq] at hc
-      exact hc
+    · exact hn
+    · rw [he]; split
+      · rfl
+      · exact hn
 
 theorem good_bar (cfg : Cfg) (ok : CfgOk cfg) (bo : BarOpts) : Good cfg (.bar bo) := by
   intro o w hw _ hd
